@@ -5,6 +5,8 @@
 import IcingaModel.Common.Proto
 import IcingaModel.C02.Model
 import IcingaModel.C02.Spec
+import IcingaModel.C02.Ack
+import IcingaModel.C02.Flap
 
 open Icinga Icinga.C01 Icinga.C02 Icinga.Proto
 
@@ -12,6 +14,18 @@ structure DSt where
   cfg : Cfg := { kind := .service, max := 1, volatile := false }
   st : C02.St := C02.init
   sp : C02.SpecSt := C02.specInit
+  ack : C02.AckSt := {}         -- model: the two acknowledgement attributes
+  sack : C02.SpecAck := {}      -- property level: the acknowledgement in force
+  flap : C02.FlapSt := {}       -- model: flapping ring buffer
+  sflap : C02.SpecFlap := {}    -- property level: window over the last 20 results
+  flapEnabled : Bool := false
+  flapUnsure : Bool := false    -- an exact tie with a threshold happened while IsFlapping() was switched off
+  flapChecked : Nat := 0
+  flapTies : Nat := 0
+  flapToggles : Nat := 0
+  ackOps : Nat := 0
+  ackExpired : Nat := 0
+  ackReplaced : Nat := 0
   now : Int := 0
   caseNo : Nat := 0
   steps : Nat := 0
@@ -55,15 +69,80 @@ def splitSemi (ws : List String) : List (List String) :=
 def bump (d : DSt) : DSt :=
   if d.caseNontrivial then d else { d with caseNontrivial := true, nontrivial := d.nontrivial + 1 }
 
+/-- One acknowledgement operation at the driver's current time: the model's `IsAcknowledged()` against the
+    implementation's (MISMATCH), the acknowledgement in force per the operations performed against the
+    implementation's (SPECFAIL), when the harness observed it. -/
+def ackApply (d : DSt) (n : Nat) (op : AckOp) (obs : Option Bool) : IO DSt := do
+  let mobs := C02.ackObs d.ack d.now op
+  let a' := C02.ackStep d.ack d.now op
+  let sa' := C02.specAckStep d.sack op
+  let mut d := d
+  match op with
+  | .set _ _ => if d.sack.inForce d.now then d := { d with ackReplaced := d.ackReplaced + 1 }
+  | _ => pure ()
+  if d.sack.cur.isSome && d.sack.inForce d.now == false && d.ack.ty != .none then d := { d with ackExpired := d.ackExpired + 1 }
+  match obs with
+  | none => pure ()
+  | some o =>
+    d := { d with ackOps := d.ackOps + 1 }
+    if o != mobs then
+      IO.println s!"MISMATCH line={n} case={d.caseNo} op=ACK impl={showBool o} model={showBool mobs}"
+      d := { d with mismatches := d.mismatches + 1 }
+    if o != sa'.inForce d.now then
+      if !d.caseFailed then IO.println s!"SPECFAIL line={n} case={d.caseNo} clause=acknowledged_exactly_while_the_newest_acknowledgement_is_in_force"
+      d := { d with specfails := d.specfails + 1, caseFailed := true }
+  -- after a disagreement continue from the implementation's answer
+  let resync := match obs with | some o => o != mobs || o != sa'.inForce d.now | none => false
+  if resync then
+    let o := obs.getD false
+    return { d with ack := if o then (if a'.ty != .none then a' else ⟨.sticky, 0⟩) else C02.ackCleared,
+                    sack := if o then (if sa'.inForce d.now then sa' else ⟨some (true, 0)⟩) else ⟨none⟩ }
+  else return { d with ack := a', sack := sa' }
+
+/-- One accepted result through the flapping model: `IsFlapping()` before and after against the
+    implementation's (MISMATCH op=FLAP); at an exact tie of the weighted total with the threshold
+    (binary64 rounding decides in the code) the implementation's answer is adopted. -/
+def flapApply (d : DSt) (n : Nat) (st : SState) (e : REnv) : IO DSt := do
+  let wasM := C02.isFlappingOf d.flapEnabled d.flap
+  let (f', tie) := C02.flapUpdate {} d.flap st
+  let (sf', _) := C02.specFlapStep {} d.sflap st
+  let isM := C02.isFlappingOf d.flapEnabled f'
+  let mut d := d
+  let mut f' := f'
+  let mut sf' := sf'
+  if d.flapUnsure then
+    return { d with flap := f', sflap := sf' }
+  if tie then
+    d := { d with flapTies := d.flapTies + 1 }
+    if d.flapEnabled then
+      f' := { f' with flapping := e.isFlapping }
+      sf' := { sf' with flapping := e.isFlapping }
+    else d := { d with flapUnsure := true }
+    if wasM != e.wasFlapping then
+      IO.println s!"MISMATCH line={n} case={d.caseNo} op=FLAP impl={showBool e.wasFlapping},{showBool e.isFlapping} model={showBool wasM},tie"
+      d := { d with mismatches := d.mismatches + 1 }
+  else
+    d := { d with flapChecked := d.flapChecked + 1 }
+    if wasM != isM then d := { d with flapToggles := d.flapToggles + 1 }
+    if (wasM, isM) != (e.wasFlapping, e.isFlapping) || f'.flapping != sf'.flapping then
+      IO.println s!"MISMATCH line={n} case={d.caseNo} op=FLAP impl={showBool e.wasFlapping},{showBool e.isFlapping} model={showBool wasM},{showBool isM} window={showBool sf'.flapping}"
+      d := { d with mismatches := d.mismatches + 1 }
+      if d.flapEnabled then
+        f' := { f' with flapping := e.isFlapping }
+        sf' := { sf' with flapping := e.isFlapping }
+      else d := { d with flapUnsure := true }
+  return { d with flap := f', sflap := sf' }
+
 def handle (d : DSt) (n : Nat) (line : String) : IO DSt := do
   let ws := words line
   match ws with
   | [] => return d
-  | "C" :: k :: mx :: vol :: _ =>
+  | "C" :: k :: mx :: vol :: crest =>
     match (if k == "h" then some Kind.host else if k == "s" then some Kind.service else none),
           parseNat? mx, parseBool? vol with
     | some k, some mx, some vol =>
-      return { d with cfg := { kind := k, max := mx, volatile := vol }, st := C02.init, sp := C02.specInit,
+      return { d with cfg := { kind := k, max := mx, volatile := vol }, st := C02.init, sp := C02.specInit, ack := {}, sack := {}, flap := {}, sflap := {}, flapUnsure := false,
+                      flapEnabled := (crest.head?.bind parseBool?).getD false,
                       caseNo := d.caseNo + 1, caseFailed := false, caseNontrivial := false, now := 1000 }
     | _, _, _ => IO.println s!"BADLINE line={n}"; return d
   | "R" :: rest =>
@@ -90,6 +169,8 @@ def handle (d : DSt) (n : Nat) (line : String) : IO DSt := do
         let r : Res := { state := st, execStart := now, now := now }
         let (ms, mn, macc) := C02.resultStep d.cfg d.st r e
         let mut d := { d with steps := d.steps + 1, results := d.results + 1, now := now }
+        d ← ackApply d n (if acc then .result (C01.stateChange d.cfg.kind d.sp.state ost) (isOK d.cfg.kind ost) else .query) (some e.acked)
+        if acc then d ← flapApply d n st e
         let implTuple := (acc, ost, oty, oat, sup, sbs, nts)
         let modelTuple := (macc, ms.core.state, ms.core.stype, ms.core.attempt, ms.sup.toNat, ms.sbs, mn)
         let agree := implTuple == modelTuple
@@ -147,6 +228,9 @@ def handle (d : DSt) (n : Nat) (line : String) : IO DSt := do
         let r : Res := { state := st, execStart := now, now := now }
         let (ms, mn, macc, mil) := C02.fireResultStep d.cfg d.st ea r e
         let mut d := { d with steps := d.steps + 1, fires := d.fires + 1, results := d.results + 1, now := now }
+        d ← ackApply d n .query none
+        d ← ackApply d n (if acc then .result (C01.stateChange d.cfg.kind d.sp.state ost) (isOK d.cfg.kind ost) else .query) (some e.acked)
+        if acc then d ← flapApply d n st e
         let implTuple := (il, acc, ost, oty, oat, sup, sbs, nts)
         let modelTuple := (mil, macc, ms.core.state, ms.core.stype, ms.core.attempt, ms.sup.toNat, ms.sbs, mn)
         let agree := implTuple == modelTuple
@@ -172,8 +256,8 @@ def handle (d : DSt) (n : Nat) (line : String) : IO DSt := do
   | "F" :: rest =>
     let (pre, post) := splitBar rest
     match pre, splitSemi post with
-    | [dt, _via], [[fired, pa, en, ss, idt, isf, act, ivl, nin, pr], [sup, sbs], [lk], [nts]] =>
-      let parsed : Option (Int × Bool × FEnv × Nat × SState × Bool × List Notif) := do
+    | [dt, _via], [[fired, pa, en, ss, idt, isf, act, ivl, nin, pr], [sup, sbs], [lk], [nts], [ackb]] =>
+      let parsed : Option (Int × Bool × FEnv × Nat × SState × Bool × List Notif × Bool) := do
         let dt ← parseInt? dt
         let fired ← parseBool? fired
         let e : FEnv := { paused := ← parseBool? pa, enabled := ← parseBool? en, stateSuppressed := ← parseBool? ss,
@@ -184,11 +268,13 @@ def handle (d : DSt) (n : Nat) (line : String) : IO DSt := do
         let sbs ← (parseNat? sbs) >>= SState.ofNat?
         let lk ← parseBool? lk
         let nts ← parseNotifs nts
-        pure (dt, fired, e, sup, sbs, lk, nts)
+        let ackb ← parseBool? ackb
+        pure (dt, fired, e, sup, sbs, lk, nts, ackb)
       match parsed with
       | none => IO.println s!"BADLINE line={n}"; return d
-      | some (dt, fired, e, sup, sbs, lk, nts) =>
+      | some (dt, fired, e, sup, sbs, lk, nts, ackb) =>
         let mut d := { d with steps := d.steps + 1, fires := d.fires + 1, now := d.now + dt }
+        d ← ackApply d n .query (some ackb)
         let (ms, mn) := if fired then C02.fireStep d.cfg d.st e else (d.st, [])
         let agree := (sup, sbs, lk, nts) == (ms.sup.toNat, ms.sbs, e.likelySoon, mn)
         if !agree then
@@ -216,9 +302,28 @@ def handle (d : DSt) (n : Nat) (line : String) : IO DSt := do
                       sp := { d.sp with pending := if m.hasState then some sbs else none,
                                         flapPending := if m.flapStart then some true else if m.flapEnd then some false else none } }
     | _, _ => IO.println s!"BADLINE line={n}"; return d
-  | _ => return d   -- D+/D-/A+/A-/P/U/N/E/X: environment changes, visible to the model through the environment inputs
+  | "A+" :: rest | "A!" :: rest =>
+    let (pre, post) := splitBar rest
+    match pre, post with
+    | [sticky, edt], [applied, acked] =>
+      match parseBool? sticky, parseInt? edt, parseBool? applied, parseBool? acked with
+      | some sticky, some edt, some applied, some acked =>
+        if applied then
+          ackApply d n (.set sticky (if edt == 0 then 0 else d.now + edt)) (some acked)
+        else ackApply d n .query (some acked)
+      | _, _, _, _ => IO.println s!"BADLINE line={n}"; return d
+    | _, _ => IO.println s!"BADLINE line={n}"; return d
+  | "A-" :: rest =>
+    let (_, post) := splitBar rest
+    match post with
+    | [_, acked] =>
+      match parseBool? acked with
+      | some acked => ackApply d n .clear (some acked)
+      | none => IO.println s!"BADLINE line={n}"; return d
+    | _ => IO.println s!"BADLINE line={n}"; return d
+  | _ => return d   -- D+/D-/P/Q/U/N/E/X: environment changes, visible to the model through the environment inputs
 
 def main : IO Unit := do
   let stdin ← IO.getStdin
   let d ← foldLines stdin handle ({} : DSt)
-  IO.println s!"STATS cases={d.caseNo} steps={d.steps} results={d.results} fires={d.fires} sent_immediate={d.sentImmediate} stashed={d.stashed} released={d.released} dismissed={d.dismissed} flap_notifs={d.flapNotifs} imminent={d.soon} interleaved={d.interleaved} synced={d.synced} nontrivial={d.nontrivial} mismatches={d.mismatches} specfails={d.specfails}"
+  IO.println s!"STATS cases={d.caseNo} steps={d.steps} results={d.results} fires={d.fires} sent_immediate={d.sentImmediate} stashed={d.stashed} released={d.released} dismissed={d.dismissed} flap_notifs={d.flapNotifs} imminent={d.soon} interleaved={d.interleaved} synced={d.synced} flap_checked={d.flapChecked} flap_toggles={d.flapToggles} flap_ties={d.flapTies} ack_ops={d.ackOps} ack_replaced={d.ackReplaced} ack_expired={d.ackExpired} nontrivial={d.nontrivial} mismatches={d.mismatches} specfails={d.specfails}"
